@@ -153,3 +153,75 @@ Lemma dedupN_In x l : In x (dedup N.eqb l) <-> In x l.
 Proof. apply dedup_In, N.eqb_spec. Qed.
 Lemma deduppr_In x l : In x (dedup pr_eqb l) <-> In x l.
 Proof. apply dedup_In, pr_eqb_spec. Qed.
+
+(* ---------------------------------------------------------------- pointwise equivalent relations *)
+Definition req (R S : rel) : Prop := forall x y, R x y <-> S x y.
+
+Lemma seq_rel_ext l1 l2 : Forall2 req l1 l2 -> req (seq_rel l1) (seq_rel l2).
+Proof.
+  induction 1 as [|R S l1 l2 HRS _ IH]; intros x y; simpl; [tauto|].
+  split; intros (z & H1 & H2); exists z; split; try apply HRS; try apply IH; auto.
+Qed.
+
+Lemma alt_rel_ext l1 l2 : Forall2 req l1 l2 -> req (alt_rel l1) (alt_rel l2).
+Proof.
+  unfold alt_rel. induction 1 as [|R S l1 l2 HRS _ IH]; intros x y; simpl.
+  - split; intros (R & [] & _).
+  - split.
+    + intros (R' & [<-|Hin] & H); [exists S; split; auto; apply HRS; auto|].
+      destruct (proj1 (IH x y)) as (S' & ? & ?); eauto.
+    + intros (S' & [<-|Hin] & H); [exists R; split; auto; apply HRS; auto|].
+      destruct (proj2 (IH x y)) as (R' & ? & ?); eauto.
+Qed.
+
+Lemma tc_ext R S : req R S -> req (tc R) (tc S).
+Proof. intros H x y. split; apply tc_mono; intros a b; apply H. Qed.
+
+Lemma mul_rel_ext m R S : req R S -> req (mul_rel m R) (mul_rel m S).
+Proof.
+  intros H x y. pose proof (tc_ext R S H x y). pose proof (H x y). destruct m; simpl; tauto.
+Qed.
+
+Lemma Forall2_map_req {A} (F G : A -> rel) l :
+  Forall (fun a => req (F a) (G a)) l -> Forall2 req (map F l) (map G l).
+Proof. induction 1; simpl; constructor; auto. Qed.
+
+Lemma neg_rel_impl_RN g l : RN g (neg_rel_impl g l).
+Proof. intros x y (p & H & _). apply in_graph_nodes in H. right; tauto. Qed.
+
+Lemma impl_rel_RN g p : RN g (impl_rel g p).
+Proof.
+  induction p as [q|a IH|l IH|l IH|a m IH|l] using path_ind2; simpl.
+  - intros x y H. right. eapply in_graph_nodes; eauto.
+  - intros x y H. destruct (IH _ _ H) as [->|[? ?]]; auto.
+  - apply seq_rel_RN. rewrite Forall_map. exact IH.
+  - apply alt_rel_RN. rewrite Forall_map. exact IH.
+  - apply mul_rel_RN; auto.
+  - apply neg_rel_impl_RN.
+Qed.
+
+Lemma existsb_false_iff {A} (p : A -> bool) l : existsb p l = false <-> forall a, In a l -> p a = false.
+Proof.
+  split.
+  - intros H a Ha. destruct (p a) eqn:E; auto.
+    assert (existsb p l = true) by (apply existsb_exists; eauto). congruence.
+  - intros H. destruct (existsb p l) eqn:E; auto. apply existsb_exists in E.
+    destruct E as (a & Ha & Hp). rewrite (H a Ha) in Hp. discriminate.
+Qed.
+
+(* without inverse members in negated sets the code's relation is the SPARQL relation *)
+Lemma impl_rel_eq g p : has_ninv p = false -> req (impl_rel g p) (path_rel g p).
+Proof.
+  induction p as [q|a IH|l IH|l IH|a m IH|l] using path_ind2; simpl; intros Hn.
+  - intros x y; tauto.
+  - intros x y. apply IH; auto.
+  - apply seq_rel_ext, Forall2_map_req. rewrite existsb_false_iff in Hn.
+    rewrite Forall_forall in IH |- *. intros a Ha. apply IH; auto.
+  - apply alt_rel_ext, Forall2_map_req. rewrite existsb_false_iff in Hn.
+    rewrite Forall_forall in IH |- *. intros a Ha. apply IH; auto.
+  - apply mul_rel_ext; auto.
+  - intros x y. unfold neg_rel_impl, neg_rel.
+    destruct (neg_iv l) eqn:Eiv; [|discriminate]. split.
+    + intros (p & H1 & H2 & _). left. split; [left; reflexivity|eauto].
+    + intros [[_ (p & H1 & H2)]|[Hf _]]; [|congruence]. exists p. simpl. intuition.
+Qed.
